@@ -4,5 +4,9 @@ EXTENDS Convert, Json, IOUtils, SequencesExt
 Cases(zzdummy) == LET xs == SetToSeq(Inputs) IN
   [i \in DOMAIN xs |-> IF "json" \in DOMAIN xs[i] THEN [e |-> "conv", kind |-> "conv", ty |-> xs[i].ty, json |-> xs[i].json, node |-> [k |-> "unit"]]
                        ELSE [e |-> "conv", kind |-> "conv", ty |-> xs[i].ty, node |-> xs[i].node, json |-> JNull]]
-ASSUME ndJsonSerialize(IOEnv.OUT, Cases(0))
+DeepCases(zzdummy) ==
+  LET cells == SetToSeq({<<t, d, sh>> : t \in {"Value", "&Value"}, d \in {1, 64, 100, 126, 127, 128, 129, 130, 200}, sh \in {"arr", "obj", "mix"}})
+  IN [i \in DOMAIN cells |-> [e |-> "conv", kind |-> "conv", ty |-> cells[i][1], deep |-> [d |-> cells[i][2], shape |-> cells[i][3]],
+                               json |-> JNull, node |-> [k |-> "unit"]]]
+ASSUME ndJsonSerialize(IOEnv.OUT, Cases(0) \o DeepCases(0))
 =============================================================================
